@@ -14,6 +14,7 @@ DST = "/verif/seeded"
 # checks to run besides the property's own one (the change also breaks these properties)
 ALSO = {"C01/m3": ["C04"], "C05/m2": ["C06"], "C02/m2": ["C04"], "C02/m3": ["C04"], "C14/m3": ["C02"], "C10/m1": ["C08"], "C16/m3": ["C15"], "C02/r2m2": ["C18"], "C01/r2m3": ["C04"], "C03/r2m1": ["C04"], "C07/r2m1": ["C18", "C08"], "C09/r2m2": ["C20"], "C08/r2m1": ["C07", "C18"], "C03/r2m2": ["C01"],
         "C11/r2m3": ["C13"], "C14/r2m2": ["C20"], "C12/r3m2": ["C08", "C07"], "C02/r3m3": ["C18"], "C02/r3m1": ["C20"], "C09/r3m2": ["C20"], "C12/r3m3": ["C11"],
+        "C02/r4m2": ["C03"], "C19/r4m1": ["C05"], "C18/r4m1": ["C07"], "C17/r4m1": ["C14"],
         "C01/r3m3": ["C12"], "C12/r3m4": ["C14"], "C05/r3m3": ["C06"], "C11/r3m2": ["C13"], "C11/r3m3": ["C12"], "C20/r3m2": ["C07"], "C08/r3m3": ["C14"], "C14/r3m1": ["C08"]}
 
 def try_check(patch, cid):
